@@ -472,6 +472,16 @@ func newBucketStorage(
 	htype histogramType,
 	buckets Buckets,
 ) bucketStorage {
+	// The storage outlives this call and is shared through the bucket cache:
+	// keep a private copy of the specification, never the caller's slice (a
+	// caller that re-uses its slice would otherwise rewrite the cached one).
+	switch b := buckets.(type) {
+	case DurationBuckets:
+		buckets = append(DurationBuckets(nil), b...)
+	case ValueBuckets:
+		buckets = append(ValueBuckets(nil), b...)
+	}
+
 	var (
 		pairs   = BucketPairs(buckets)
 		storage = bucketStorage{
